@@ -31,7 +31,7 @@ package contactql
 
 //@ func (c *Condition) resolveValueType
 //@   pure
-//@   reads Condition::propType, Condition::propKey
+//@   reads Condition::propType, Condition::propKey, map[string]assets.FieldType
 //@   nopanic
 //@   requires c != nil && (!isnil(resolver) || c.propType != PropertyTypeField)
 //@   ensures [urn] c.propType == PropertyTypeURN ==> result == assets.FieldTypeText
